@@ -143,7 +143,7 @@ def identity_failures(si, where):
         g, o, nl = np.array(si.gsnr, dtype=float), np.array(si.snr_lin, dtype=float), np.array(si.snr_nli, dtype=float)
         ok_rows = np.array(si._signal_ratio) > 0
         lhs, rhs = 1 / g, 1 / o + 1 / nl
-    bad = ok_rows & ~(np.abs(lhs - rhs) <= REL * np.maximum(np.abs(lhs), np.abs(rhs)))
+        bad = ok_rows & ~(np.abs(lhs - rhs) <= REL * np.maximum(np.abs(lhs), np.abs(rhs)))
     if bad.any():
         i = int(np.argmax(bad))
         out.append(('gsnr_identity', f'{where}: channel #{i} 1/gsnr={lhs[i]!r} but 1/snr_lin+1/snr_nli={rhs[i]!r}'))
@@ -263,12 +263,6 @@ def gen_hist(rng, nmax=30, maxops=20, malformed=False):
     if malformed:
         bad = rng.choice(['shape', 'overlap_add', 'overlap_init', 'empty_mux', 'nli_gt_p', 'dup_band'])
     return {'kind': 'hist', 'chs': chs, 'ops': ops, 'bad': bad, 'bad_at': rng.randint(0, max(0, nops - 1))}
-
-
-def concretise(rng, case):
-    """turn the abstract op list into concrete, replayable operations by running it on the real object:
-    returns the list of concrete ops (JSON) — vector sizes / relative noise powers / bands depend on the state"""
-    return case
 
 
 def _mk_si(chs, noise=None):
@@ -455,34 +449,69 @@ def drive_hist(case):
     return init, steps
 
 
+def hop_lit(st, chl):
+    """Gallina hop of one executed step; chl renders a channel 7-tuple"""
+    c = st['c']
+    n = len(st['before']['f'])
+    op = c['op']
+    if op in ('att_lin', 'att_db', 'gain_lin', 'gain_db'):
+        v = c['v'] if isinstance(c['v'], list) else [c['v']] * n
+        ctor = 'SAtt' if op.startswith('att') else 'SGain'
+        return f'HS ({ctor} {fqlist([lin_factor(op, x) for x in v])})'
+    if op == 'ase':
+        return f'HS (SAse {fqlist(c["v"])})'
+    if op == 'nli':
+        return f'HS (SNli {fqlist(c["v"])})'
+    if op == 'demux':
+        return f'HS (SDemux {fql(c["lo"])} {fql(c["hi"])})'
+    if op == 'remux':
+        return 'HRemux ' + listlit([f'({fql(lo)}, {fql(hi)})' for lo, hi in c['bands']])
+    o = st.get('other')
+    if o is None:
+        o = snap(_mk_si(c['other'], c['noise']))
+    return 'HS (SAdd ' + listlit([chl(x) for x in snap_chs(o)]) + ')'
+
+
+CHAIN_MAX = 40      # histories with at most this many channel-operations are also replayed as one chained run
+
+
 def hist_term(case, init, steps):
-    """the Gallina term replaying the history from the observed initial state"""
+    """the Gallina term replaying the history: chained from the observed initial state when small, otherwise
+    every step from the state gnpy was in before it (exact numerals do not grow)"""
     if isinstance(init, str):
         chs = [(c[0], c[1], c[2], c[3], 1.0, 0.0, 0.0) for c in case['chs']]
         return 'res_s (mk_si ' + listlit([chlit(c) for c in chs]) + ')'
-    hops = []
+    if len(init['f']) * len(steps) <= CHAIN_MAX:
+        return ('run_hist ' + listlit([chlit(x) for x in snap_chs(init)]) + ' '
+                + listlit([hop_lit(st, lambda x: 'ch ' + ' '.join(fql(y) for y in x)) for st in steps]))
+    tab = {}
+
+    def chl(x):
+        key = (x[0], x[1], x[2])
+        i = tab.setdefault(key, len(tab))
+        return f'c {i} ' + ' '.join(fql(y) for y in x[3:])
+    # the state after step k is the state before step k+1: bound once (s0, s1, ...)
+    lets, items = [], []
+    names = {}
+
+    def state_name(sn):
+        key = id(sn)
+        if key not in names:
+            names[key] = f's{len(names)}'
+            lets.append(f'let {names[key]} := {listlit([chl(x) for x in snap_chs(sn)] if sn is not None else [])} in')
+        return names[key]
+    prev_after = None
     for st in steps:
-        c = st['c']
-        n = len(st['before']['f'])
-        op = c['op']
-        if op in ('att_lin', 'att_db', 'gain_lin', 'gain_db'):
-            v = c['v'] if isinstance(c['v'], list) else [c['v']] * n
-            ctor = 'SAtt' if op.startswith('att') else 'SGain'
-            hops.append(f'HS ({ctor} {fqlist([lin_factor(op, x) for x in v])})')
-        elif op == 'ase':
-            hops.append(f'HS (SAse {fqlist(c["v"])})')
-        elif op == 'nli':
-            hops.append(f'HS (SNli {fqlist(c["v"])})')
-        elif op == 'demux':
-            hops.append(f'HS (SDemux {fql(c["lo"])} {fql(c["hi"])})')
-        elif op == 'remux':
-            hops.append('HRemux ' + listlit([f'({fql(lo)}, {fql(hi)})' for lo, hi in c['bands']]))
-        elif op == 'add':
-            o = st.get('other')
-            if o is None:
-                o = snap(_mk_si(c['other'], c['noise']))
-            hops.append('HS (SAdd ' + listlit([chlit(x) for x in snap_chs(o)]) + ')')
-    return 'run_hist ' + listlit([chlit(x) for x in snap_chs(init)]) + ' ' + listlit(hops)
+        before = prev_after if prev_after is not None else st['before']
+        bname = state_name(before)
+        if st['out'] == 'ok':
+            ex = f'(Some {state_name(st["after"])})' if st['after'] is not None else '(Some [])'
+            prev_after = st['after']
+        else:
+            ex = 'None'
+        items.append(f'({bname}, {hop_lit(st, chl)}, {ex})')
+    tb = listlit([f'({fql(k[0])}, {fql(k[1])}, {fql(k[2])})' for k in tab])
+    return f'let c := tch {tb} in ' + ' '.join(lets) + f' run_steps {listlit(items)}'
 
 
 def in_scope_step(st):
@@ -545,20 +574,34 @@ def hist_oracle(case, init, steps):
     return fails
 
 
+def parse_verdict(body):
+    """'E:Type:detail' | '=' | 'ok' | '!i,field,value' | rendered state"""
+    if body.startswith('E:'):
+        return 'E:' + body[2:].split(':')[0]
+    if body in ('=', 'ok'):
+        return body
+    if body.startswith('!'):
+        i, field, val = body[1:].split(',')
+        return ('diff', int(i), field, val)
+    return parse_spec(body)
+
+
 def canon_hist_model(line):
-    """model line -> (list of per-step (wf, 'E:Type' | channel rows))"""
-    out = []
-    for part in line.split(';') if line != '' else []:
-        wf, body = part[0] == 'T', part[1:]
-        if body.startswith('E:'):
-            out.append((wf, 'E:' + body[2:].split(':')[0]))
-        else:
-            out.append((wf, parse_spec(body)))
-    return out
+    """model line -> list of per-step (wf flag, verdict)"""
+    return [(part[0] == 'T', parse_verdict(part[1:])) for part in (line.split(';') if line != '' else [])]
+
+
+def diff_text(v, rows):
+    _, i, field, val = v
+    if field == 'count':
+        return f'channel count: gnpy {len(rows)} model {i}'
+    names = ['frequency', 'pch', 'signal_ratio', 'ase_ratio', 'nli_ratio']
+    got = rows[i][names.index(field)] if i < len(rows) else None
+    return f'channel #{i} {field}: gnpy {got!r} model {pq(val)!r}'
 
 
 def compare_hist(ctx, case, init, steps, line, corr='corr:SI.history'):
-    """diff of one history; reports through ctx.corr_break; returns number of states compared"""
+    """diff of one history; reports through ctx.corr_break; returns number of channel states compared"""
     jc = jcase(case)
     if isinstance(init, str):
         got = 'E:' + line[2:].split(':')[0] if line.startswith('E:') else 'ok'
@@ -572,20 +615,23 @@ def compare_hist(ctx, case, init, steps, line, corr='corr:SI.history'):
         return 0
     ncmp = 0
     for k, (st, (wf, m)) in enumerate(zip(steps, model)):
-        if wf != in_scope_step(st):
+        op = st['c']['op']
+        if op != 'add' and wf != in_scope_step(st):
             ctx.corr_break(corr, f'op #{k + 1}: side condition judged {in_scope_step(st)} by the harness, {wf} by the model',
                            jc, impl=in_scope_step(st), model=wf)
             break
-        if isinstance(m, str) or st['out'] != 'ok':
+        if st['out'] != 'ok' or (isinstance(m, str) and m.startswith('E:')):
             if m != st['out']:
-                ctx.corr_break(corr, f'op #{k + 1} {st["c"]["op"]}: outcome differs', jc,
+                ctx.corr_break(corr + '.' + op, f'op #{k + 1} {op}: outcome differs', jc,
                                impl=st.get('exc', st['out']), model=m if isinstance(m, str) else 'ok')
             break
-        d = spec_diff(snap_rows(st['after']), m)
-        ncmp += len(m)
+        rows = snap_rows(st['after'])
+        ncmp += len(rows)
+        if m == '=':
+            continue
+        d = diff_text(m, rows) if isinstance(m, tuple) else spec_diff(rows, m)
         if d:
-            ctx.corr_break(corr + '.' + st['c']['op'], f'op #{k + 1} {st["c"]["op"]}: {d}', jc,
-                           impl=snap_rows(st['after'])[:3], model=m[:3])
+            ctx.corr_break(corr + '.' + op, f'op #{k + 1} {op}: {d}', jc, impl=rows[:3], model=str(m)[:300])
             break
     return ncmp
 
@@ -617,12 +663,14 @@ AMPS_DEFAULT = ['std_medium_gain', 'std_low_gain', 'std_high_gain', 'std_fixed_g
                 'openroadm_mw_mw_preamp_worstcase_ver5', '4pumps_raman']
 PUMPS = [{'power': 0.224403, 'frequency': 205e12, 'propagation_direction': 'counterprop'},
          {'power': 0.231135, 'frequency': 201e12, 'propagation_direction': 'counterprop'}]
+MULTI_AMPS = [('std_medium_gain_multiband', ['std_medium_gain_C', 'std_medium_gain_L']),
+              ('std_low_gain_multiband', ['std_low_gain', 'std_low_gain_L'])]
 BAND_C = {'f_min': 191.3e12, 'f_max': 195.1e12, 'spacing': 50e9}
 BAND_L = {'f_min': 186.3e12, 'f_max': 190.1e12, 'spacing': 50e9}
 
 
-def fiber_el(rng, uid, raman=False, short=False):
-    length = round(rng.uniform(1, 15), 3) if short else round(rng.uniform(20, 130), 3)
+def fiber_el(rng, uid, raman=False, short=False, lo=20, hi=130):
+    length = round(rng.uniform(1, 15), 3) if short else round(rng.uniform(lo, hi), 3)
     params = {'length': length, 'length_units': 'km', 'loss_coef': rng.choice([0.2, 0.2, 0.22, 0.25]),
               'con_in': rng.choice([None, None, 0.0, 0.5, 1.0]), 'con_out': rng.choice([None, None, 0.0, 0.5, 1.0]),
               'att_in': rng.choice([0, 0, 0, 1.5])}
@@ -643,10 +691,16 @@ def gen_path_case(rng, flavour=None, thorough=False):
     eq = 'multiband' if flavour == 'multiband' else 'default'
     els, cx = [], []
     raman_ok = flavour == 'raman'
+    both = rng.random() < 0.7
 
     def amp_el(uid):
         if eq == 'multiband':
-            return None
+            if not both:
+                return None
+            tv, amps = rng.choice(MULTI_AMPS)
+            return {'uid': uid, 'type': 'Multiband_amplifier', 'type_variety': tv,
+                    'amplifiers': [{'type_variety': a, 'operational': {'gain_target': None, 'delta_p': None, 'out_voa': None,
+                                                                        'tilt_target': 0.0}} for a in amps]}
         tv = rng.choice(AMPS_DEFAULT)
         op = {'gain_target': None, 'tilt_target': rng.choice([0, 0, 0, -1.0, 1.5]), 'out_voa': rng.choice([None, 0, 1.0]),
               'delta_p': None}
@@ -663,17 +717,20 @@ def gen_path_case(rng, flavour=None, thorough=False):
         prev = a
         for k in range(nsp):
             fu = f'fiber {tag}_{k}'
-            els.append(fiber_el(rng, fu, raman=raman_ok and rng.random() < 0.6, short=rng.random() < 0.15))
+            if eq == 'multiband':
+                els.append(fiber_el(rng, fu, lo=45, hi=110))
+            else:
+                els.append(fiber_el(rng, fu, raman=raman_ok and rng.random() < 0.6, short=rng.random() < 0.15))
             cx.append((prev, fu))
             prev = fu
             r = rng.random()
             last = k == nsp - 1
-            if r < 0.2 and not last:
+            if r < 0.2 and not last and not raman_ok:
                 fz = f'fused {tag}_{k}'
                 els.append({'uid': fz, 'type': 'Fused', 'params': {'loss': rng.choice([0, 0.5, 1, 2.5])}})
                 cx.append((prev, fz))
                 prev = fz
-            elif r < 0.6:
+            elif r < 0.6 or (eq == 'multiband' and both and not last):
                 e = amp_el(f'edfa {tag}_{k}')
                 if e:
                     els.append(e)
@@ -703,7 +760,7 @@ def gen_path_case(rng, flavour=None, thorough=False):
             if rng.random() < 0.4:
                 ro['params']['target_pch_out_db'] = rng.choice([-20, -18, -22, -25])
             if eq == 'multiband':
-                ro['params']['design_bands'] = [dict(BAND_C), dict(BAND_L)] if rng.random() < 0.8 else [dict(BAND_C)]
+                ro['params']['design_bands'] = [dict(BAND_C), dict(BAND_L)] if both else [dict(BAND_C)]
             els += [{'uid': f'trx {x}', 'type': 'Transceiver'}, ro]
             cx += [(f'trx {x}', f'roadm {x}'), (f'roadm {x}', f'trx {x}')]
         for (a, b) in sorted(edges):
@@ -721,7 +778,7 @@ def gen_path_case(rng, flavour=None, thorough=False):
             f = lo + rng.randint(0, 20) * 50e9
             for _ in range(rng.randint(1, 3)):
                 sw, br = rng.choice(SLOTS[:7])
-                nch = rng.randint(1, 6 if not thorough else 14)
+                nch = rng.randint(2, 6 if not thorough else 14)      # (a one-channel comb makes Edfa.interpol_params fail)
                 f_min = f + sw / 2
                 f_max = f_min + (nch - 1) * sw
                 if f_max + sw / 2 > hi:
@@ -1002,9 +1059,11 @@ def elem_term(rng, call, k):
     prog, prob, summ = elem_program(call, sel)
     b = call['before']
     idx = [i for i in range(len(b['f'])) if b['f'][i] in set(sel.tolist())]
-    term = f'run_elem {KIND[call["kind"]]} ({prog}) ' + listlit([chlit(c) for c in snap_chs(b, idx)])
     a = call['after']
-    exp = snap_rows(a, [i for i in range(len(a['f'])) if a['f'][i] in set(sel.tolist())]) if a is not None else []
+    aidx = [i for i in range(len(a['f'])) if a['f'][i] in set(sel.tolist())] if a is not None else []
+    exp = snap_rows(a, aidx) if a is not None else []
+    term = (f'run_elem {KIND[call["kind"]]} ({prog}) ' + listlit([chlit(c) for c in snap_chs(b, idx)])
+            + ' (Some ' + listlit([chlit(c) for c in snap_chs(a, aidx)] if a is not None else []) + ')')
     return term, exp, prob, summ
 
 
@@ -1022,14 +1081,14 @@ def check_elem_line(ctx, case, call, line, exp, prob, summ):
                        f'{call["uid"]}: the updates {summ} applied by the element are not an instance of the program '
                        f'of a {kind}', jc, impl=ident, model='eprog_okb = false')
         return
-    if body.startswith('E:'):
+    v = parse_verdict(body)
+    if isinstance(v, str) and v.startswith('E:'):
         ctx.corr_break(f'corr:Elements.{kind}.replay', f'{call["uid"]}: model raises {body}', jc, impl=ident, model=body)
         return
-    d = spec_diff(exp, parse_spec(body))
-    if d:
+    if v != '=':
         ctx.corr_break(f'corr:Elements.{kind}.replay',
                        f'{call["uid"]}: replaying the logged updates {summ} from the snapshot before the element does '
-                       f'not give the snapshot after it: {d}', jc, impl=exp[:3], model=parse_spec(body)[:3])
+                       f'not give the snapshot after it: {diff_text(v, exp)}', jc, impl=exp[:3], model=body)
     return flags[1] == 'T'
 
 
@@ -1145,6 +1204,25 @@ def nontrivial_path(res):
 
 
 # ------------------------------------------------------------------ run
+def balanced_eval(prop, terms, tag, nshards=16):
+    """coq_eval with the terms dealt over the shards by size (largest first, round robin)"""
+    if not terms:
+        return []
+    order = sorted(range(len(terms)), key=lambda i: -len(terms[i]))
+    nsh = min(nshards, len(terms))
+    buckets = [order[k::nsh] for k in range(nsh)]
+    per = max(len(b) for b in buckets)
+    # coq_eval cuts contiguous slices of `per` terms: pad the short buckets with a trivial term
+    flat, pos = [], {}
+    for b in buckets:
+        for i in b:
+            pos[i] = len(flat)
+            flat.append(terms[i])
+        flat += ['""%string'] * (per - len(b))
+    res = common.coq_eval(prop, IMPORTS, flat, per_file=per, tag=tag)
+    return [res[pos[i]] for i in range(len(terms))]
+
+
 def load_corpus(prop):
     cases = []
     for f in sorted(glob.glob(os.path.join(common.VERIF, 'corpus', prop, '*.json'))):
@@ -1223,7 +1301,7 @@ def run_all(ctx, prop, hist_oracle_fn, path_oracle_fn, sample_k):
             for (term, uid, i, raw, rep) in trx_terms(rng, res, 3):
                 terms.append(term)
                 meta.append(('trx', case, uid, i, raw, rep))
-    lines = common.coq_eval(prop, IMPORTS, terms, per_file=ctx.scale(40, 120))
+    lines = balanced_eval(prop, terms, 'cases')
     nstates = 0
     for m, line in zip(meta, lines):
         if m[0] == 'hist':
